@@ -436,6 +436,31 @@ void caseBilinear(Ctx &c, Rng &g, uint64_t stratum) {
         c.violation("C06", std::string("linearity/") + E1::text + " , " + E2::text,
                     desc);
       c.count("bilinear:metamorphic");
+      // the SAME expression type on both sides, holding DIFFERENT state
+      // (other run-time scalars and factor splines), applied to the very same
+      // spline object: <E[env] a | E[env2] a>
+      {
+        Scene<T> sc2;
+        sc2.pts = sc.pts;
+        sc2.grid.emplace(mkVec<T>(sc2.pts));
+        buildScene(sc2, c, g, wa, sc2.n());
+        const T both = BilinearForm{E1::template make<T>(*sc.env),
+                                    E1::template make<T>(*sc2.env)}(a, a);
+        Den l, r;
+        AbsM la, ra;
+        modelApply(*m1, sc, a, l, la);
+        modelApply(*m1, sc2, a, r, ra);
+        R exSame(0);
+        for (size_t k = wa.start; k + 1 < wa.end; k++)
+          exSame += model::pintegral(model::pmul(l.pc[k], r.pc[k]), sc.pts[k],
+                                     sc.pts[k + 1]);
+        if (toR<T>(both) != exSame)
+          c.violation("C06", std::string("same-type-different-state/") + E1::text,
+                      desc + " second state: " + sceneStr(sc2) + " got " +
+                          model::rstr(toR<T>(both)) + " expected " +
+                          model::rstr(exSame));
+        c.count("bilinear:same-type-different-state");
+      }
     }
     if (exact != 0) {
       Hasher h;
